@@ -390,6 +390,66 @@ def run_isolation(version, op):
     return viol
 
 
+def run_shared_event(version):
+    """Two operations in flight together that wait for the SAME stack status (forming a network while the application brings the
+    network up): one matching event, arriving after both commands were accepted, completes both.  And a scan whose result
+    callbacks repeat the same reading returns every one of them, in order."""
+    viol = []
+    a = Ctx(version, "form")
+    t = a.t
+    try:
+        params = gv.one(t.EmberNetworkParameters, "mid")
+        t1 = a.loop.create_task(a.ezsp.formNetwork(params))
+        a.loop.settle()
+        seq, cmd = a.last_request()
+        a.rx(a.frame(cmd, [a.status("ok")], seq))
+        a.answered = seq
+        t2 = a.loop.create_task(a.app._ensure_network_running())
+        a.loop.settle()
+        seq, cmd = a.last_request()
+        a.rx(a.frame("networkState", [t.EmberNetworkStatus.NO_NETWORK], seq))
+        a.loop.settle()
+        seq, cmd = a.last_request()       # networkInit
+        a.rx(a.frame(cmd, [a.status("ok")], seq))
+        a.answered = seq
+        a.rx(a.frame("stackStatusHandler", [a.status("up")], seq, callback=True))
+        a.loop.settle()
+        for name, task in (("formNetwork", t1), ("bring-up", t2)):
+            if not task.done():
+                viol.append(f"shared v{version}: {name} is still waiting although the matching stack status arrived after its command was accepted "
+                            f"(another operation was waiting for the same status)")
+                task.cancel()
+            elif outcome(task) != ("ok",):
+                viol.append(f"shared v{version}: {name} ended with {outcome(task)}")
+        a.loop.settle()
+        lk = leaks(a)
+        if lk:
+            viol.append(f"shared v{version}: {lk}")
+    finally:
+        a.close()
+    b = Ctx(version, "scan")
+    try:
+        task = start_op(b)
+        seq, cmd = b.last_request()
+        b.rx(b.frame(cmd, [b.status("ok")], seq))
+        readings = [[12, -40], [12, -40], [13, -41], [12, -40]]
+        for r in readings:
+            b.rx(b.frame("energyScanResultHandler", r, seq, callback=True))
+        b.rx(b.frame("scanCompleteHandler", [26, b.status("ok")], seq, callback=True))
+        if not task.done() or outcome(task) != ("ok",):
+            viol.append(f"scan v{version} with repeated readings: {outcome(task) if task.done() else 'pending'}")
+        else:
+            got = [list(map(int, r)) for r in task.result()]
+            if got != readings:
+                viol.append(f"scan v{version}: result callbacks {readings} were received, the scan returned {got}")
+        if not task.done():
+            task.cancel()
+            b.loop.settle()
+    finally:
+        b.close()
+    return viol
+
+
 def outcome(task):
     if task.cancelled():
         return ("cancelled",)
@@ -472,6 +532,10 @@ def main(tier: str) -> int:
             n_iso += 1
             for msg in run_isolation(v, op):
                 rep.add_violation(vkey(op, msg), msg, {"world": "c17", "kind": "isolation", "version": v, "op": op})
+    for v in versions:
+        n_iso += 2
+        for msg in run_shared_event(v):
+            rep.add_violation(vkey("shared", msg), msg, {"world": "c17", "kind": "shared", "version": v, "op": "form"})
     total += n_iso
     if total < 5000 or len(sigs) < 30:
         raise explore.InternalError(f"C17 vacuous: sequences={total} signatures={len(sigs)}")
@@ -497,6 +561,11 @@ def main(tier: str) -> int:
 
 
 def replay(data) -> int:
+    if data.get("kind") == "shared":
+        v = run_shared_event(data["version"])
+        for m in v:
+            print("VIOLATION:", m)
+        return 1 if v else 0
     if data.get("kind") == "isolation":
         v = run_isolation(data["version"], data["op"])
         for m in v:
